@@ -18,6 +18,7 @@ from symx.core import SymReal, R, rv, frac, prove, satisfiable, model_value
 from pySDC.helpers.problem_helper import get_finite_difference_stencil, get_finite_difference_matrix, get_1d_grid, get_steps
 
 PID = 'C18'
+BOUNDS = {'quick': dict(derivative='1..4', order='1..6', offset_sets='60 sampled subsets of [-3,3]', sizes='stencil width .. +3'), 'thorough': dict(order='1..8', offset_sets='400 sampled subsets of [-4,4]')}
 
 
 def describe(rep):
